@@ -1,4 +1,5 @@
 """C10 — combinational loops are detected exactly, and the reported loop is real."""
+from props.common_prog import judge_prog
 
 THEOREM_MODULES = ["Hcl.Theorems.C10"]
 THEOREMS = {"Hcl.Theorems.C10": ["C10_cycle_iff", "C10_sorter_spec", "C10_never_panics", "C10_reported_loop_is_real"]}
@@ -8,7 +9,11 @@ RULE = ("S-GRAPH: every digraph (self loops allowed) on 0..4 labelled nodes in q
         "Graph::topological_sort through the verif-hooks wrapper; the Lean model is re-run with the hash-iteration "
         "orders the real code logged and must return the identical list (correspondence); independently the returned "
         "order/cycle is validated against reachability-based cyclicity (oracle). A case is non-trivial when the graph "
-        "has at least one edge; distinct = distinct (edge list, logged order) requests.")
+        "has at least one edge; distinct = distinct (edge list, logged order) requests. S-PROG loop injection: random programs with "
+        "an attempted dependency loop (self, 2- and 3-cycles, constant definitions, back edge from a late wire to an early "
+        "one, through each combinational component incl. a read port disabled by a constant, and - must be accepted - "
+        "through register banks and write ports), built 4 times each; accept/reject compared with model and with the "
+        "reachability-based Spec.faults.")
 
 
 def judge(req, impl, model, spec):
@@ -24,13 +29,21 @@ def judge(req, impl, model, spec):
     return {"corr": ok_corr, "oracle": oracle, "what": what, "key": req if nontrivial else None, "cats": cats}
 
 
+def judge_loop(req, impl, model, spec):
+    j = judge_prog(req, impl, model, spec)
+    j["cats"].append("reports-loop" if "WireLoop" in impl else "no-loop-reported")
+    return j
+
+
 def streams(tier, seed):
     if tier == "quick":
         return [
             {"name": "graph-exhaustive-4", "stream": "graph-exhaustive", "count": 4, "judge": judge},
             {"name": "graph-random", "stream": "graph-random", "count": 3000, "judge": judge},
+            {"name": "prog-loop", "stream": "prog-loop", "count": 1500, "judge": judge_loop},
         ]
     out = [
+        {"name": "prog-loop", "stream": "prog-loop", "count": 60000, "judge": judge_loop},
         {"name": "graph-exhaustive-4", "stream": "graph-exhaustive", "count": 4, "judge": judge},
         {"name": "graph-random", "stream": "graph-random", "count": 100000, "judge": judge},
     ]
